@@ -719,6 +719,13 @@ impl<
                         let active_request =
                             self.create_active_request(details, chunk, INVALID_CONNECTION_ID);
                         return Ok(Some(active_request));
+                    } else {
+                        // the request of a disconnected client is discarded, the chunk must be
+                        // returned otherwise the expired connection can never be removed
+                        self.shared_state
+                            .lock()
+                            .request_receiver
+                            .release_offset(&details, REQUEST_CHANNEL_ID);
                     }
                 }
                 None => return Ok(None),
@@ -828,6 +835,13 @@ impl<
                         let active_request =
                             self.create_active_request(details, chunk, INVALID_CONNECTION_ID);
                         return Ok(Some(active_request));
+                    } else {
+                        // the request of a disconnected client is discarded, the chunk must be
+                        // returned otherwise the expired connection can never be removed
+                        self.shared_state
+                            .lock()
+                            .request_receiver
+                            .release_offset(&details, REQUEST_CHANNEL_ID);
                     }
                 }
                 None => return Ok(None),
